@@ -12,13 +12,13 @@
 //verif:replace (net.IP).String vC11ipString
 //verif:shard VerifC11aReserveHistory 11
 //verif:shard VerifC11bConnectExits 8
-//verif:obligation C11.a reservation caps on every history of 3 (thorough 4) RESERVE requests (real handleReserve + constraints.Reserve) from 3 peers over 2 IPv4 addresses with symbolic clock advances, relayed-source flag and ACL answers, caps MaxReservations / MaxReservationsPerIP in 1..2: after every request the number of unexpired reservations never exceeds the total cap nor the per-IP cap, a refused request creates no reservation, a request over a relayed connection or denied by the ACL is refused, a granted reservation is tagged, and a disconnect drops the peer's reservation
+//verif:obligation C11.a reservation caps on every history of 3 RESERVE requests (thorough: each response write may also fail) (real handleReserve + constraints.Reserve) from 3 peers over 2 IPv4 addresses with symbolic clock advances, relayed-source flag and ACL answers, caps MaxReservations / MaxReservationsPerIP in 1..2: after every request the number of unexpired reservations never exceeds the total cap nor the per-IP cap, a refused request creates no reservation, a request over a relayed connection or denied by the ACL is refused, a granted reservation is tagged, and a disconnect drops the peer's reservation
 //verif:obligation C11.b every exit of handleConnect (span / memory refusal, relayed source, malformed peer, ACL denial, no reservation, circuit caps, stream open failure, service / memory refusal on the stop stream, stop handshake write / read / type / status failure, hop response write failure): the per-peer circuit counters, hop tags, the span and its memory are back to their previous values; a circuit is granted only if the destination holds a reservation, the source did not arrive over a relay, the ACL allows it and both peers are below MaxCircuits; after a granted circuit ends everything is restored too
 //verif:obligation C11.c data limit: on a limited relay each direction forwards at most Limit.Data bytes (both directions are limited) and the copy loop accounts exactly the bytes the sink accepted; copyWithBuffer never reports more than was written, flags impossible write counts, and stops at the first error
 //verif:obligation C11.c' the real relayLimited (the copy loop with the configured limit in front of it) for every limit 0..8 and every script of <= 2 reads / writes with symbolic sizes and errors: never more than the limit reaches the destination - nothing when the limit is 0 -, the direction ends exactly once, a copy error resets both streams
 //verif:obligation C11.e Relay.gc from every state of 2 reservations (any expiry, 0..2 open circuits each, relay open or closed) at any instant: exactly the expired reservations are dropped (all when closed) together with their tag - also when the peer is part of an open circuit, since CONNECT only checks that a reservation is recorded - and circuit counts are kept
 //verif:obligation C11.d Relay.disconnected for every connectedness the network may report after a connection closed (not connected, connected, cannot connect, limited = only relayed connections left): the peer's reservation and its entries in the cap accounting disappear unless the peer is still directly connected; other peers' reservations are untouched
-//verif:bound 3 peers, 2 IPv4 addresses, caps 1..2, history 3 (4); one CONNECT per run with all stage outcomes symbolic; copy kernel: <= 2 (thorough 3) reads of <= 4 bytes with symbolic (n, err) on both sides
+//verif:bound 3 peers, 2 IPv4 addresses, caps 1..2, history 3; one CONNECT per run with all stage outcomes symbolic; copy kernel: <= 2 (thorough 3) reads of <= 4 bytes with symbolic (n, err) on both sides
 //verif:stub host / connection manager / stream / scope / span / ACL are harness stub types; protobuf readers and writers, handleError / writeResponse / makeReservationMsg are hooked with symbolic outcomes; time.Now and manet.ToIP substituted at their call sites; net.IP.String injective stub in the symbolic run
 //verif:outside ASN caps (IPv6 only), voucher signing, stream deadlines actually ending a circuit, expiry GC racing with disconnect notifications
 package relay
@@ -274,7 +274,7 @@ func VerifC11aReserveHistory() {
 	first := vCase(vC11nOps)
 	defer vC11remove()
 	vC11install()
-	K := 3 + vTier()
+	K := 3 // the thorough tier keeps the history at 3 and adds a failing response write per request (history 4 on top of that ran past 90 minutes per shard)
 	h := &vC11host{cm: &vC11cm{tags: map[string]int{}}}
 	rc := Resources{ReservationTTL: time.Hour, MaxReservations: 1 + vCase(2), MaxReservationsPerIP: 1 + vCase(2), MaxReservationsPerASN: 100}
 	r := vC11relay(h, rc)
